@@ -208,7 +208,9 @@ func findMissingDependencies(c containerStore, params ...param) []paramSingle {
 		switch p := param.(type) {
 		case paramSingle:
 			allProviders := c.getAllValueProviders(p.Name, p.Type)
-			_, hasDecoratedValue := c.getDecoratedValue(p.Name, p.Type)
+			// Like paramSingle.Build, look for a decorated value in every
+			// enclosing scope, not just in c.
+			_, hasDecoratedValue := p.getDecoratedValue(c)
 			// This means that there is no provider that provides this value,
 			// and it is NOT being decorated and is NOT optional.
 			// In the case that there is no providers but there is a decorated value
